@@ -690,6 +690,10 @@ func (s *Store[K, V]) sinkWrite(item WriteBufItem[K, V]) {
 			}
 		}
 
+		// the value was overwritten by Set: a copy in the secondary cache is stale,
+		// so the entry has to be written back when it is evicted
+		entry.flag.SetFromNVM(false)
+
 		// update entry policy weight
 		entry.policyWeight += item.costChange
 
